@@ -1,5 +1,5 @@
 From Coq Require Import ZArith List Bool.
-From Coba Require Import Common.Sx C12.Model C12.ModelArff.
+From Coba Require Import Common.Sx C12.Model C12.ModelArff C12.ModelArffSparse.
 Import ListNotations.
 Open Scope Z_scope.
 Definition zss (x : sx) : list (list Z) := map as_zs (as_l x).
@@ -17,5 +17,9 @@ Definition run (x : sx) : sx :=
                                  end) (zss a))
   | 4 => L_ (map (fun l => of_zss (csv_parse l)) (zss a))
   | 5 => of_zss (arff_parse (as_z a) (as_zs (nth_sx 2 x)))
+  | 6 => match sparse_parse (as_zs a) with
+         | None => Z_ (-1)
+         | Some ps => L_ (map (fun kv : list Z * list Z => L_ [match key_value (fst kv) with Some k => Z_ k | None => Z_ (-1) end; of_zs (snd kv)]) ps)
+         end
   | _ => err 99
   end.
